@@ -110,6 +110,7 @@ class Ctx:
         self.step = -1
         self.armed_asserts = 0
         self.discrepancies = 0
+        self.np_err = 'default'
         self._last_kind = '^'
 
     # -- log
@@ -164,10 +165,18 @@ class Ctx:
 # process-global state pinned per run
 
 
-def pin_globals():
+NP_ERR_STATES = {
+    'default': dict(divide='warn', over='warn', under='ignore', invalid='warn'),  # NumPy's own defaults
+    'ignore': dict(divide='ignore', over='ignore', under='ignore', invalid='ignore'),
+    'warn': dict(divide='warn', over='warn', under='warn', invalid='warn'),
+    'raise': dict(divide='raise', over='raise', under='raise', invalid='raise'),
+}
+
+
+def pin_globals(np_err='default'):
     import numpy as np
 
-    np.seterr(divide='warn', over='warn', under='ignore', invalid='warn')  # NumPy's own defaults
+    np.seterr(**NP_ERR_STATES[np_err])  # the caller's ambient floating-point error state is part of the configuration
     warnings.resetwarnings()
     warnings.simplefilter('ignore')
     return list(warnings.filters), dict(np.geterr())
@@ -176,7 +185,7 @@ def pin_globals():
 def run_schedule(workload, schedule, armed):
     """Execute one schedule against the real code. Returns the Ctx."""
     ctx = Ctx(armed)
-    pin_globals()
+    pin_globals(schedule.get('np_err', 'default'))
     try:
         workload.execute(schedule, ctx)
     except Exception as e:
